@@ -468,11 +468,17 @@ class SymInt:
         from .seq import SymBytes
         length = concretize(length)
         if signed:
-            raise SxUnsupported("signed to_bytes")
-        if self < 0:
-            raise OverflowError("can't convert negative int to unsigned")
-        if self >= (1 << (8 * length)):
-            raise OverflowError("int too big to convert")
+            if length == 0:
+                if self != 0:
+                    raise OverflowError("int too big to convert")
+                return b""
+            if self < -(1 << (8 * length - 1)) or self >= (1 << (8 * length - 1)):
+                raise OverflowError("int too big to convert")
+        else:
+            if self < 0:
+                raise OverflowError("can't convert negative int to unsigned")
+            if self >= (1 << (8 * length)):
+                raise OverflowError("int too big to convert")
         w = max(self.w, 8 * length + 1)
         e = self.ext(w)
         items = []
